@@ -14,7 +14,7 @@ PID = "C12"
 RULE = (
     "full cross product tensors x frame rotations Q; one case = one tensor decomposed in every "
     "frame (one elasticity_components call per (tensor, Q)). Tensors: the two built-in "
-    "single-crystal matrices (x unit scale 1, 1e9); every positive-definite point of a 2-letter "
+    "single-crystal matrices (x unit scale 1, 1e9); 3 whole-number orthorhombic matrices turned 45 degrees about c (still whole numbers); every positive-definite point of a 2-letter "
     "(thorough: some 3-letter) grid over the 9 orthorhombic entries; Voigt averages (own einsum) "
     "of 6 texture kinds x grain counts x {olivine, enstatite, 70/30 mix} x {uniform, geometric} "
     "volumes. Q: identity, 23 other cube rotations, generic + seeded rotations, two near-identity "
@@ -188,6 +188,8 @@ def gen_cases(tier, seed):
             keys.append({"cls": "builtin", "t": t, "scale": sc})
     for p in _grid_points(tier):
         keys.append({"cls": "ortho", "t": p})
+    for i in range(len(INT45)):
+        keys.append({"cls": "int45", "t": i})
     for tex in TEXTURES:
         for n in _ns(tier):
             for mn in MINERALS:
@@ -198,10 +200,24 @@ def gen_cases(tier, seed):
     return keys
 
 
+# orthorhombic matrices with entries that are multiples of 4 (c11 c22 c33 c12 c13 c23 c44 c55 c66):
+# turned by exactly 45 degrees about c they are still whole-number matrices, but no longer in
+# their symmetry frame (seed C12f)
+INT45 = [(320, 200, 236, 68, 72, 76, 64, 80, 76), (192, 260, 152, 44, 96, 52, 92, 48, 60), (400, 120, 280, 40, 60, 84, 28, 100, 56)]
+
+
 def build_tensor(key):
     """3x3x3x3 tensor of the case in the unrotated frame."""
     if _STIFF is None:
         warmup()
+    if key["cls"] == "int45":
+        T = E.to_tensor(E.ortho_matrix(*[float(v) for v in INT45[key["t"]]]))
+        c = np.sqrt(0.5)
+        Q = np.array([[c, -c, 0.0], [c, c, 0.0], [0.0, 0.0, 1.0]])
+        M = E.to_voigt(E.rotate4(T, Q))
+        if np.abs(M - np.rint(M)).max() > 1e-9:
+            raise RuntimeError("int45 letter is not whole-number valued")
+        return E.to_tensor(np.rint(M))
     if key["cls"] == "builtin":
         return E.to_tensor(_STIFF[key["t"]] * SCALES[key["scale"]])
     if key["cls"] == "ortho":
